@@ -163,7 +163,13 @@ func vProbe() (string, string, string) {
 	j, _ := m.Json()
 	leaves := ""
 	lm := Map{"a": map[string]interface{}{"-k": "1", "#text": "t", "l": []interface{}{"p"}}}
-	for _, l := range lm.LeafPaths(true) {
+	lp := lm.LeafPaths(true)
+	for i := 1; i < len(lp); i++ { // order of map iteration is not part of the behaviour
+		for j := i; j > 0 && lp[j] < lp[j-1]; j-- {
+			lp[j], lp[j-1] = lp[j-1], lp[j]
+		}
+	}
+	for _, l := range lp {
 		leaves += l + ";"
 	}
 	return string(x) + "|" + string(j), string(sx), leaves
